@@ -325,6 +325,19 @@ pub fn candidates(seed: u64) -> Vec<Value> {
         let mut cnf2: Vec<Vec<i64>> = cnf.iter().filter(|c| !c.is_empty()).cloned().collect();
         cnf2.push(vec![1, -2, 3]);
         out.push(json!({"case": "compile_cnf", "cnf": cnf2, "order": o, "dtree": true}));
+        // ... and with the empty clauses left in (a leaf without variables), as long as there is a clause at all
+        if !cnf.is_empty() { out.push(json!({"case": "compile_cnf", "cnf": cnf, "order": o, "dtree": true})); }
+    }
+    // dtree plans of formulas with k empty clauses next to m independent clauses (subtrees without variables)
+    for k in 1..=3usize {
+        for m in 0..=3usize {
+            let mut cnf: Vec<Vec<i64>> = vec![vec![]; k];
+            let indep = [vec![1i64], vec![-2], vec![3]];
+            for c in indep.iter().take(m) { cnf.push(c.clone()); }
+            for o in orders.iter().take(2) { out.push(json!({"case": "compile_cnf", "cnf": cnf, "order": o, "dtree": true})); }
+            let mut rev = cnf.clone(); rev.reverse();
+            out.push(json!({"case": "compile_cnf", "cnf": rev, "order": orders[3], "dtree": true}));
+        }
     }
     out
 }
